@@ -74,6 +74,10 @@ def gen_cases(seed, tier):
         combos += [(float(rng.choice(gs)), e) for e in EPSS]
         if tier == "thorough":
             combos = [(g, e) for g in gs for e in EPSS]
+        # integer-valued parameters written as Python ints are accepted by the validators too
+        combos += [(1 if sv in ("rvi", "per", "vi") else 0.5, 1), (float(rng.choice(gs)), 100)]
+        if sv not in ("rvi",):
+            combos += [(0, 0.5), (1, 2)]
         for (g, e) in combos:
             pn, pp = PROBLEMS[int(rng.integers(0, len(PROBLEMS)))]
             cases.append(dict(kind="routes", solver=sv, gamma=g, epsilon=e, pname=pn, pparams=pp, devices=1,
